@@ -24,3 +24,17 @@ pub fn run(_out: &mut Out, name: &str) {
     println!("final E={}", fresh.energy(&mol.coordinates));
     for t in fresh.terms() { let e = optrs::verif::make_term(&t).energy(&mol.coordinates); if e.abs() > 0.2 { println!("{} {:?} {:?} E={}", t.kind, t.idxs, t.params, e); } }
 }
+
+pub fn why_abort(_out: &mut Out) {
+    use crate::s_matrix::panic_kind;
+    let mut rng = Rng::new(77);
+    for (z, g) in [(98usize, "octahedral"), (79, "tbp"), (63, "octahedral")] {
+        for _ in 0..40 {
+            let exact = centre(z, 1, g, 1.0);
+            let r = random_rotation(&mut rng);
+            let m = moved(&exact, &r, [rng.range(-3., 3.), rng.range(-3., 3.), rng.range(-3., 3.)]);
+            let mol = m.build();
+            if let Some(k) = panic_kind(|| { let _ = UFF::new(&mol); }) { println!("{} {}: {}", z, g, k); break; }
+        }
+    }
+}
